@@ -14,9 +14,14 @@ pub use embedded_graphics::{
 /// Colours used by the harness: built from a small integer, distinct for distinct small integers.
 pub trait Col: PixelColor + core::fmt::Debug + Send + Sync + 'static {
     fn nth(i: u32) -> Self;
+    /// The colour whose raw value is zero (`false`) or all ones (`true`).
+    fn extreme(hi: bool) -> Self;
     const NAME: &'static str;
 }
 impl Col for BinaryColor {
+    fn extreme(hi: bool) -> Self {
+        if hi { BinaryColor::On } else { BinaryColor::Off }
+    }
     fn nth(i: u32) -> Self {
         if i % 2 == 0 {
             BinaryColor::On
@@ -27,28 +32,71 @@ impl Col for BinaryColor {
     const NAME: &'static str = "BinaryColor";
 }
 impl Col for Gray4 {
+    fn extreme(hi: bool) -> Self {
+        Gray4::new(if hi { 15 } else { 0 })
+    }
     fn nth(i: u32) -> Self {
         Gray4::new((15 - (i % 16)) as u8)
     }
     const NAME: &'static str = "Gray4";
 }
 impl Col for Gray8 {
+    fn extreme(hi: bool) -> Self {
+        Gray8::new(if hi { 255 } else { 0 })
+    }
     fn nth(i: u32) -> Self {
         Gray8::new((255 - (i % 256)) as u8)
     }
     const NAME: &'static str = "Gray8";
 }
 impl Col for Rgb565 {
+    fn extreme(hi: bool) -> Self {
+        if hi { Rgb565::new(31, 63, 31) } else { Rgb565::new(0, 0, 0) }
+    }
     fn nth(i: u32) -> Self {
         Rgb565::new((31 - (i % 32)) as u8, ((i * 7 + 1) % 64) as u8, ((i * 3 + 2) % 32) as u8)
     }
     const NAME: &'static str = "Rgb565";
 }
 impl Col for Rgb888 {
+    fn extreme(hi: bool) -> Self {
+        if hi { Rgb888::new(255, 255, 255) } else { Rgb888::new(0, 0, 0) }
+    }
     fn nth(i: u32) -> Self {
         Rgb888::new((255 - (i % 256)) as u8, ((i * 7 + 1) % 256) as u8, ((i * 3 + 2) % 256) as u8)
     }
     const NAME: &'static str = "Rgb888";
+}
+
+/// Far-away placement (auxiliary words 0..=2): in one case of eight an offset with components up to
+/// +-30000 (content scrolled far off-screen, the i16 scale); zero otherwise and for old tapes.
+pub const FAR: i32 = 30_000;
+pub fn far_offset(d: &mut Dec) -> Point {
+    let p = far_offset_inner(d);
+    if p != Point::zero() {
+        d.far = true;
+    }
+    p
+}
+
+fn far_offset_inner(d: &mut Dec) -> Point {
+    match d.aux_u(0, 0, 15) {
+        0..=13 => Point::zero(),
+        14 => Point::new(d.aux_i(1, -FAR, FAR), d.aux_i(2, -FAR, FAR)),
+        _ => {
+            let c = |d: &mut Dec, k: usize| match d.aux_u(k, 0, 7) {
+                0 => 0,
+                1 => 32_767 - d.aux_i(k + 2, 0, 40),
+                2 => -32_768 + d.aux_i(k + 2, 0, 40),
+                3 => 16_384 + d.aux_i(k + 2, -20, 20),
+                4 => -16_384 + d.aux_i(k + 2, -20, 20),
+                5 => 4_096 + d.aux_i(k + 2, -20, 20),
+                6 => -8_192 + d.aux_i(k + 2, -20, 20),
+                _ => d.aux_i(k + 2, -FAR, FAR),
+            };
+            Point::new(c(d, 1), c(d, 2))
+        }
+    }
 }
 
 pub fn point(d: &mut Dec, r: i32) -> Point {
@@ -71,16 +119,26 @@ pub fn alignment(d: &mut Dec) -> StrokeAlignment {
     ])
 }
 
-/// fill colour = nth(1) or none, stroke colour = nth(2) (one in 16: nth(1), the fill's colour) or none, width 0..=maxw (biased small)
+/// fill colour = nth(1) (sometimes raw zero / all ones) or none, stroke colour = nth(2) (sometimes raw
+/// zero / all ones / the fill's colour) or none, width 0..=maxw (biased small)
 pub fn style<C: Col>(d: &mut Dec, maxw: u32) -> PrimitiveStyle<C> {
     let mut b = PrimitiveStyleBuilder::new();
-    if d.ratio(2, 3) {
-        b = b.fill_color(C::nth(1));
+    // same decision boundaries as ratio(2, 3) for "colour present"; a few cases use the colours with
+    // raw value zero / all ones, and the stroke sometimes gets the fill's colour
+    let fill = match d.u(0, 23) {
+        0..=7 => None,
+        21 => Some(C::extreme(false)),
+        22 => Some(C::extreme(true)),
+        _ => Some(C::nth(1)),
+    };
+    if let Some(c) = fill {
+        b = b.fill_color(c);
     }
-    // same decision boundary as ratio(2, 3); the top 1/24 uses the fill's colour for the stroke
     match d.u(0, 23) {
         0..=7 => {}
-        23 => b = b.stroke_color(C::nth(1)),
+        20 => b = b.stroke_color(C::extreme(false)),
+        21 => b = b.stroke_color(C::extreme(true)),
+        22 | 23 => b = b.stroke_color(fill.unwrap_or(C::nth(1))),
         _ => b = b.stroke_color(C::nth(2)),
     }
     let w = match d.u(0, 5) {
@@ -91,7 +149,36 @@ pub fn style<C: Col>(d: &mut Dec, maxw: u32) -> PrimitiveStyle<C> {
     };
     b = b.stroke_width(w);
     b = b.stroke_alignment(alignment(d));
-    b.build()
+    let st = b.build();
+    // equivalent API routes to the same style (auxiliary word 7; the plain builder for a zero word)
+    match d.aux_u(7, 0, 7) {
+        0..=4 => st,
+        5 => PrimitiveStyleBuilder::from(&st).build(),
+        6 => {
+            // start from a completely different style and overwrite / reset every attribute
+            let mut other = PrimitiveStyle::with_stroke(C::nth(9), 77);
+            other.fill_color = Some(C::nth(10));
+            let mut b = PrimitiveStyleBuilder::from(&other);
+            b = match st.fill_color {
+                Some(c) => b.fill_color(c),
+                None => b.reset_fill_color(),
+            };
+            b = match st.stroke_color {
+                Some(c) => b.stroke_color(c),
+                None => b.reset_stroke_color(),
+            };
+            b.stroke_width(st.stroke_width).stroke_alignment(st.stroke_alignment).stroke_style(st.stroke_style).build()
+        }
+        _ => {
+            let mut n = PrimitiveStyle::new();
+            n.fill_color = st.fill_color;
+            n.stroke_color = st.stroke_color;
+            n.stroke_width = st.stroke_width;
+            n.stroke_alignment = st.stroke_alignment;
+            n.stroke_style = st.stroke_style;
+            n
+        }
+    }
 }
 
 pub fn style_desc<C: Col>(s: &PrimitiveStyle<C>) -> String {
